@@ -1,4 +1,6 @@
 """C13 - keys, pastes and mouse events forwarded into the embedded terminal arrive intact."""
+import vselftest
+from checks import selfmut
 
 
 import re
@@ -32,6 +34,14 @@ def main(c):
         c.model_check(specs, "MC_Forward.tla", "MC_Forward.cfg")
     td = c.drive(drv, "c13", replay=c.replay)
     rejects, _ = c.validate_traces(specs, "Forward_Trace.tla", "Forward_Trace.cfg", td)
+    if not c.replay:
+        c.cov["binding_selftest"] = vselftest.run(c, specs, "Forward_Trace.tla", "Forward_Trace.cfg", td, set(), [
+            ("key: decoded key does not match", selfmut.key_not_matching),
+            ("key: other cursor-key mode", selfmut.key_wrong_mode),
+            ("paste: bracket missing", selfmut.paste_unbracketed),
+            ("mouse: decoded column off by one", selfmut.mouse_off_by_one),
+            ("mouse: report without tracking mode", selfmut.mouse_unrequested),
+])
     idx = c.load_index(td)
     c.count_distinct(idx)
     for s in list(idx.values())[:3]:
